@@ -71,6 +71,7 @@ pub fn c26(rep: &mut Report, scratch: &std::path::Path, rng: &mut Rng, histories
         let mut puts: BTreeMap<String, (bool, bool)> = BTreeMap::new(); // code -> (has triplet, queued for enrichment)
         if exec_op(&mut w, &cfg, &json!({"op": "create"})) {
             let n_ops = w.rng.usize(6, 16);
+            let mut skip_pending = false;
             for i in 0..n_ops {
                 if w.failed { break; }
                 w.rep.eval();
@@ -93,8 +94,14 @@ pub fn c26(rep: &mut Report, scratch: &std::path::Path, rng: &mut Rng, histories
                         w.rep.count("deletes_between_puts");
                         if !exec_op(&mut w, &cfg, &json!({"op": "delete", "target": t})) { break; }
                     }
+                } else if roll < 74 {
+                    // the bulk-ingestion commit (frames applied, indexes left for later) followed by more puts, finalised further on
+                    w.rep.count("skip_index_commits_between_puts");
+                    if !exec_op(&mut w, &cfg, &json!({"op": "commit_skip_indexes"})) || !check_derived(&mut w, &puts, "after-commit_skip_indexes") { break; }
+                    skip_pending = true;
                 } else if roll < 85 {
                     w.rep.count("commits_between_puts");
+                    if skip_pending { skip_pending = false; if !exec_op(&mut w, &cfg, &json!({"op": "finalize_indexes"})) { break; } }
                     if !exec_op(&mut w, &cfg, &json!({"op": "commit"})) || !check_derived(&mut w, &puts, "after-commit") { break; }
                 } else if !exec_op(&mut w, &cfg, &json!({"op": "reopen"})) || !check_derived(&mut w, &puts, "after-reopen") { break; }
             }
